@@ -79,6 +79,7 @@ func init() {
 				e1run("map-live-n3-d5", "map", 3, 5, "", o, nil, "live", 0),
 				e1run("list-n2-d5", "list", 2, 5, "batch", o, nil, "", 0),
 				e1run("list-live-n3-d4", "list", 3, 4, "", o, nil, "live", 0),
+				e1run("list-batch-live-n2-d4", "list", 2, 4, "batch", o, nil, "live", 0), // updates and deletes of several elements at once meet single ones
 				e1run("doc-n2-d5", "doc", 2, 5, "", o, nil, "", 0),
 				e1run("doc-live-n3-d3", "doc", 3, 3, "", o, nil, "live", 0),
 				e1run("doc-live-n3-key1-d5", "doc", 3, 5, "key1", o, nil, "live", 0),
@@ -145,6 +146,7 @@ func init() {
 				e1run("list-n2-d4", "list", 2, 4, "", o, nil, "", 0),
 				e1run("list-n3-d4", "list", 3, 4, "", o, nil, "", 0),
 				e1run("list-live-n3-d4", "list", 3, 4, "", o, nil, "live", 0),
+				e1run("list-batch-live-n2-d4", "list", 2, 4, "batch", o, nil, "live", 0), // updates and deletes of several elements at once meet single ones
 				e1run("doc-live-n3-d3", "doc", 3, 3, "c02", o, nil, "live", 0),
 				e1run("doc-live-n3-key1-d5", "doc", 3, 5, "key1", o, nil, "live", 0),
 				e1run("doc-n2-d4", "doc", 2, 4, "c02", o, nil, "", 0),
@@ -310,6 +312,7 @@ func init() {
 				e1runSP("map-live-n2-d4", "map", 2, 4, "", o, 1, 0, "live"),
 				e1runSP("list-tomb-n2-d3", "list", 2, 3, "mid", o, 1, 0, "tomb"),
 				e1runSP("doc-tomb-n2-d3", "doc", 2, 3, "", o, 1, 0, "tomb"),
+				e1runSP("doc-reburied-n2-d3", "doc", 2, 3, "", o, 1, 0, "reburied"), // two tombstones buried by the same winner, then export / import
 				e1runSP("map-tomb-n2-d4", "map", 2, 4, "", o, 1, 0, "tomb"),
 				e1runSP("doc-deep21-n2-d2", "doc", 2, 2, "arr", o, 1, 0, "deep-doc21"), // identifiers (2,10..11) next to (21,0): import must keep them apart
 				e1runSP("list-deep21-n2-d2", "list", 2, 2, "", o, 1, 0, "deep-list21"),
@@ -848,6 +851,10 @@ func init() {
 		patchSync := e2sched{E2: e2p{Clients: 2, Type: "doc", Prefix: "joined", Tolerant: true}, Setup: []pact{docput, {Op: "sync", R: 0}, {Op: "dput", R: 1, K: "c", V: "p", T: "k1|"}},
 			Conc:  []pact{{Op: "patch", R: 0, T: "k1", V: `{"a":{"x":1},"b":[1,2]}`}, {Op: "sync", R: 1}, {Op: "seq", R: 0, Sub: []pact{{Op: "dput", R: 0, K: "d", V: "p", T: "k1|"}, {Op: "sync", R: 0}}}},
 			AtEnd: []string{"log", "converge", "snapshots", "nosnapop", "patched"}}
+		// two REST patches of one existing document, with different targets: served one at a time, in either order
+		twoPatches := e2sched{E2: e2p{Clients: 2, Type: "doc", Prefix: "joined", Tolerant: true}, Setup: []pact{docput, {Op: "sync", R: 0}},
+			Conc:  []pact{{Op: "patch", R: 0, T: "k1", V: `{"a":1,"x":1}`}, {Op: "patch", R: 1, T: "k1", V: `{"a":1,"y":2}`}},
+			AtEnd: []string{"log", "converge", "snapshots", "nosnapop", "patchserial"}}
 		connectSync := e2sched{E2: e2p{Clients: 2, Type: "counter", Prefix: "joined", Tolerant: true}, Setup: []pact{inc(0), inc(1)},
 			Conc: []pact{{Op: "connect", R: 0}, {Op: "sync", R: 0}, {Op: "sync", R: 1}}, AtEnd: end}
 		giveup2 := same2
@@ -857,11 +864,11 @@ func init() {
 		if tier == "quick" {
 			p.BudgetS = 600
 			p.Runs = []Run{{Name: "one-request-held-70-other-keys-served", Check: "C12", Kind: "lockbuckets", Cases: true, Params: map[string]interface{}{}, Shards: 3},
-				schedRun("same-key-2-caller-gives-up-b2", 2, giveup2, 0), schedRun("fresh-key-2-caller-gives-up-b2", 2, giveupFresh, 0), schedRun("patch-vs-syncs-b2", 2, patchSync, 0), schedRun("connect-vs-syncs-b2", 2, connectSync, 0), schedRun("same-key-2-b3", 3, same2, 0), schedRun("different-keys-2-b2", 2, diff2, 0), schedRun("different-keys-2-repository-statements-b1", 1, diffRepo, 0), schedRun("two-keys-crossed-order-b2", 2, crossed2, 0), schedRun("fresh-key-2-b3", 3, fresh, 0), schedRun("same-key-3-b2", 2, same3, 0)}
+				schedRun("same-key-2-caller-gives-up-b2", 2, giveup2, 0), schedRun("fresh-key-2-caller-gives-up-b2", 2, giveupFresh, 0), schedRun("patch-vs-syncs-b2", 2, patchSync, 0), schedRun("two-patches-of-one-document-b2", 2, twoPatches, 0), schedRun("connect-vs-syncs-b2", 2, connectSync, 0), schedRun("same-key-2-b3", 3, same2, 0), schedRun("different-keys-2-b2", 2, diff2, 0), schedRun("different-keys-2-repository-statements-b1", 1, diffRepo, 0), schedRun("two-keys-crossed-order-b2", 2, crossed2, 0), schedRun("fresh-key-2-b3", 3, fresh, 0), schedRun("same-key-3-b2", 2, same3, 0)}
 		} else {
 			p.BudgetS = 3400
 			p.Runs = []Run{{Name: "one-request-held-70-other-keys-served", Check: "C12", Kind: "lockbuckets", Cases: true, Params: map[string]interface{}{}, Shards: 3},
-				schedRun("same-key-2-caller-gives-up-b3", 3, giveup2, 0), schedRun("fresh-key-2-caller-gives-up-b3", 3, giveupFresh, 0), schedRun("patch-vs-syncs-b3", 3, patchSync, 0), schedRun("connect-vs-syncs-b3", 3, connectSync, 0), schedRun("same-key-2-b4", 4, same2, 0), schedRun("different-keys-2-b3", 3, diff2, 0), schedRun("different-keys-2-repository-statements-b2", 2, diffRepo, 0), schedRun("two-keys-crossed-order-b3", 3, crossed2, 0), schedRun("fresh-key-2-b4", 4, fresh, 0), schedRun("same-key-3-b3", 3, same3, 0), schedRun("same-key-4-b1", 1, same4, 0)}
+				schedRun("same-key-2-caller-gives-up-b3", 3, giveup2, 0), schedRun("fresh-key-2-caller-gives-up-b3", 3, giveupFresh, 0), schedRun("patch-vs-syncs-b3", 3, patchSync, 0), schedRun("two-patches-of-one-document-b3", 3, twoPatches, 0), schedRun("connect-vs-syncs-b3", 3, connectSync, 0), schedRun("same-key-2-b4", 4, same2, 0), schedRun("different-keys-2-b3", 3, diff2, 0), schedRun("different-keys-2-repository-statements-b2", 2, diffRepo, 0), schedRun("two-keys-crossed-order-b3", 3, crossed2, 0), schedRun("fresh-key-2-b4", 4, fresh, 0), schedRun("same-key-3-b3", 3, same3, 0), schedRun("same-key-4-b1", 1, same4, 0)}
 		}
 		return p
 	}
@@ -1093,7 +1100,7 @@ func init() {
 				schedRun("realtime-sync-call-next-to-an-operation-b3", 3, rtSync, 0), schedRun("realtime-join-next-to-an-operation-b2", 2, rtJoin, 0))
 			p.Runs = append(p.Runs, schedRun("realtime-two-subscriptions-in-a-row-b2", 2, rtEnter("subscribe"), 0), schedRun("realtime-two-subscribe-or-creates-in-a-row-b2", 2, rtEnter("soc"), 0))
 			p.Runs = append(p.Runs, schedRun("realtime-aborted-transaction-next-to-deliveries-b3", 3, rtAbort(nil), 0),
-				schedRun("realtime-aborted-transaction-next-to-deliveries-eager-b3", 3, rtAbort(&spolicy{EagerSpawn: true, FastNotify: true}), 0))
+				schedRun("realtime-aborted-transaction-next-to-deliveries-eager-b2", 2, rtAbort(&spolicy{EagerSpawn: true, FastNotify: true}), 0))
 			p.Runs = append(p.Runs, schedRun("realtime-counter-slow-listener-b2", 2, rtl("counter"), 0), schedRun("realtime-list-slow-listener-b1", 1, rtl("list"), 0))
 			p.Runs = append(p.Runs, schedRun("realtime-list-2-b2", 2, rt(2, "list", true), 0), schedRun("realtime-counter-3-b2", 2, rt(3, "counter", false), 0))
 			p.Runs = append(p.Runs, schedRun("realtime-counter-2ops-listener-b2", 2, rt2("counter"), 0), schedRun("realtime-counter-2ops-eager-spawn-b2", 2, rt2e("counter"), 0),
